@@ -95,18 +95,45 @@ Definition wk_ok (w : option wpc) (f : fut) : Prop :=
 Definition holds_s (c : cfg) (w : option wpc) : bool :=
   match w with Some (WN _ N3) | Some (WN _ N4) => lk_ntest c || lk_ncall c | _ => false end.
 Definition in_startwork (p : cpc) : bool := match p with CSW1 _ | CSW2 _ | CSW3 _ => true | _ => false end.
-Definition mm_needed (p : cpc) : bool := match p with CSW2 _ | CSW3 _ | CSW4 _ => true | _ => false end.
+Definition mm_needed (c : cfg) (p : cpc) : bool :=
+  match p with CSW1 _ => nw c | CSW2 _ | CSW3 _ | CSW4 _ => true | _ => false end.
 Definition accepted_pc (p : cpc) : bool := match p with CCreate1 | CGet1 _ _ => true | _ => false end.
+(** the worker still holds the worker role: it has not passed its exit test *)
+Definition w_active (w : option wpc) : bool :=
+  match w with None | Some WRet | Some WFin => false | Some _ => true end.
+(** HFlag: the client has taken the worker role for the worker it is about to start *)
+Definition c_decided (p : cpc) : bool := match p with CSW1 _ | CSW3 _ => true | _ => false end.
+(** which worker may exist while the client is inside StartWork past its test *)
+Definition sw_ok (c : cfg) (p : cpc) (w : option wpc) : Prop :=
+  match p with
+  | CSW1 _ => if nw c then w_active w = false else w = None
+  | CSW2 _ => nw c = false /\ w = None
+  | CSW3 _ => w = None
+  | _ => True
+  end.
 
 Record ctl (c : cfg) (s : state) : Prop := {
   ctl_wk : wk_ok (wpcs s) (work s);
-  ctl_sw : in_startwork (cpcs s) = true -> wpcs s = None;
-  ctl_mm : (working s = true \/ mm_needed (cpcs s) = true) -> mm s = true;
+  ctl_swk : sw_ok c (cpcs s) (wpcs s);
+  ctl_run : running s = nw c && (w_active (wpcs s) || c_decided (cpcs s));
+  ctl_mm : (working s = true \/ mm_needed c (cpcs s) = true) -> mm s = true;
   ctl_mx : smutex s = if holds_s c (wpcs s) then Some Worker else None;
   ctl_started : started s = true;
   ctl_acc : accepted_pc (cpcs s) = true -> wpcs s = None;
   ctl_n2 : forall m, wpcs s = Some (WN m N2) -> lk_ntest c = false /\ lk_ncall c = true
 }.
+
+(** before the repair no worker exists while the client is between StartWork's test and the spawn;
+    after it none exists at the spawn *)
+Lemma ctl_sw : forall c s, ctl c s -> nw c = false -> in_startwork (cpcs s) = true -> wpcs s = None.
+Proof.
+  intros c s HC Hn Hp. pose proof (ctl_swk c s HC) as H. destruct (cpcs s); try discriminate Hp; cbn in H.
+  - rewrite Hn in H. exact H.
+  - exact (proj2 H).
+  - exact H.
+Qed.
+Lemma ctl_sw3 : forall c s k, ctl c s -> cpcs s = CSW3 k -> wpcs s = None.
+Proof. intros c s k HC E. pose proof (ctl_swk c s HC) as H. rewrite E in H. exact H. Qed.
 
 Lemma wk_ok_working : forall w f, wk_ok w f -> (match f with FRunning | FReturned => true | _ => false end) = true -> w <> None.
 Proof. intros w f H Hf E. subst w. cbn in H. destruct H; subst f; discriminate. Qed.
@@ -118,11 +145,11 @@ Proof.
 Qed.
 
 Lemma ctl_init : forall c h0 sc, ctl c (init h0 sc).
-Proof. intros. constructor; cbn; auto; try discriminate. intros [H|H]; discriminate. Qed.
+Proof. intros. constructor; cbn; auto; try discriminate. rewrite andb_false_r; reflexivity. intros [H|H]; discriminate. Qed.
 
 Lemma not_disabled_no_worker : forall c s, ctl c s -> disabled s = false -> wpcs s = None.
 Proof.
-  intros c s [Hwk _ Hmm _ Hst _ _] Hd. unfold disabled, is_maint in Hd. rewrite Hst in Hd. cbn in Hd.
+  intros c s [Hwk _ _ Hmm _ Hst _ _] Hd. unfold disabled, is_maint in Hd. rewrite Hst in Hd. cbn in Hd.
   destruct (working s) eqn:Ew.
   - rewrite Hmm in Hd by (left; reflexivity). discriminate.
   - eapply wk_ok_not_working; eauto.
@@ -131,40 +158,34 @@ Qed.
 Lemma working_wk : forall s, wk_ok (wpcs s) (work s) -> working s = false -> wpcs s = None.
 Proof. intros s H E. eapply wk_ok_not_working; eauto. Qed.
 
-Ltac ctl_crush HC Hwk Hsw Hmm Hmx Hst Hacc Hn2 :=
-  try match goal with Hd : disabled _ = false |- _ =>
-        pose proof (not_disabled_no_worker _ _ HC Hd) as Hnw end;
-  constructor;
-  unfold working in *; cbn in *;
-  repeat match goal with E : cpcs _ = _ |- _ => rewrite E in *; clear E end; cbn in *;
-  try solve [ assumption | reflexivity | discriminate | intros; discriminate
-            | intros [?|?]; try discriminate; auto
-            | intros; auto
-            | intros; rewrite Hsw in * by reflexivity; discriminate
-            | match goal with E : work _ = _ |- _ => rewrite E in *; cbn in * end;
-              solve [ destruct (wpcs _) as [[]|]; cbn in *; try discriminate; auto; destruct Hwk; discriminate
-                    | intros [?|?]; try discriminate; auto ]
-            | rewrite Hmx, Hsw by reflexivity; reflexivity
-            | intros _; eapply wk_ok_not_working; eassumption
-            | match goal with E : match work _ with _ => _ end = false |- _ => rewrite E end;
-              intros [?|?]; discriminate ].
-
 Lemma ctl_step : forall c s t s', ctl c s -> step c s t = Some s' -> ctl c s'.
 Proof.
-  intros c s t s' HC H. pose proof HC as [Hwk Hsw Hmm Hmx Hst Hacc Hn2].
+  intros c s t s' HC H. pose proof HC as [Hwk Hsw Hrun Hmm Hmx Hst Hacc Hn2].
   destruct t; step_unfold H.
   - (* client *)
-    split_step H; finish_step H; try (destruct rs); ctl_crush HC Hwk Hsw Hmm Hmx Hst Hacc Hn2.
+    split_step H; finish_step H; try (destruct rs).
+    all: try match goal with Hd : disabled _ = false |- _ =>
+        pose proof (not_disabled_no_worker _ _ HC Hd) as Hnw end.
+    all: constructor; unfold working in *; cbn in *.
+    all: repeat match goal with E : cpcs _ = _ |- _ => rewrite E in *; clear E end; cbn in *.
+    all: try solve [ assumption | reflexivity | discriminate | intros; discriminate
+            | intros [?|?]; try discriminate; auto
+            | intros; auto ].
+    all: try solve [
+      repeat match goal with
+             | E : nw _ = _ |- _ => rewrite E in *; clear E
+             | E : running _ = _ |- _ => rewrite E in *; clear E
+             end;
+      destruct (nw c); destruct (wpcs s) as [[| ? [] | | | | | |]|]; cbn in *;
+      destruct (work s); cbn in *; intuition (try congruence; try discriminate) ].
   - (* worker *)
     destruct (wpcs s) as [p|] eqn:Ew; [|discriminate].
-    assert (Hsw' : in_startwork (cpcs s) = false)
-      by (destruct (in_startwork (cpcs s)); [discriminate (Hsw eq_refl)|reflexivity]).
     assert (Hacc' : accepted_pc (cpcs s) = false)
       by (destruct (accepted_pc (cpcs s)); [discriminate (Hacc eq_refl)|reflexivity]).
-    clear Hsw Hacc.
+    clear Hacc.
     destruct p as [|m [| | |]| | | | | |]; unfold free_for, release_w in H; cbn in H, Hwk, Hmx;
       split_step H; finish_step H; constructor; unfold working, release_w in *; cbn in *;
-      rewrite ?Hsw', ?Hacc', ?Hwk in *; cbn in *;
+      rewrite ?Hacc', ?Hwk in *; cbn in *;
       try solve [ assumption | reflexivity | discriminate | intros; discriminate
                 | intros [?|?]; try discriminate; auto | intros; auto
                 | repeat match goal with
@@ -173,6 +194,11 @@ Proof.
                          end; cbn in *; congruence
                 | destruct (Hn2 _ eq_refl) as [A B]; rewrite A, B; reflexivity
                 | destruct (lk_ntest c || lk_ncall c); congruence ].
+    all: try solve [
+      repeat match goal with
+             | E : nw _ = _ |- _ => rewrite E in *; clear E
+             end;
+      unfold sw_ok in *; destruct (nw c); destruct (cpcs s); cbn in *; intuition (try congruence; try discriminate) ].
 Qed.
 
 Lemma reach_ctl : forall c h0 sc s, reach c h0 sc s -> ctl c s.
@@ -291,7 +317,7 @@ Proof.
                    match goal with |- In t (scheds ?L) <-> _ =>
                      change (In t (scheds L)) with (next_task s = t \/ In t (scheds (log s))) end;
                    rewrite Hsc; tauto ]);
-      try (rewrite (ctl_sw c s HC) in Hnd, Hlt, Hsc by (rewrite E; reflexivity);
+      try (rewrite (ctl_sw3 c s _ HC E) in Hnd, Hlt, Hsc;
            first [exact Hnd | exact Hlt | exact Hsc]).
   - destruct (wpcs s) as [p|] eqn:Ew; [|discriminate].
     destruct p as [|m [| | |]| | | | | |]; unfold free_for, release_w in H;
@@ -418,11 +444,11 @@ Proof.
       try (intros _; left; reflexivity);
       try (left; apply Hthr; reflexivity).
     (* WHasP with an empty queue: everything scheduled so far has been executed *)
-    right. intros _ t Ht.
-    destruct HT as [_ _ Hsc]. unfold all_tasks in Hsc. rewrite Ew, E in Hsc. cbn -[execs scheds] in Hsc.
-    rewrite app_nil_r in Hsc. apply Hsc.
-    clear - Ht. induction (log s) as [|e l IH]; cbn -[scheds] in *; [contradiction|].
-    destruct e; cbn in *; auto.
+    all: right; intros _ t Ht;
+      destruct HT as [_ _ Hsc]; unfold all_tasks in Hsc; rewrite Ew, E in Hsc; cbn -[execs scheds] in Hsc;
+      rewrite app_nil_r in Hsc; apply Hsc;
+      clear - Ht; induction (log s) as [|e l IH]; cbn -[scheds] in *; [contradiction|];
+      destruct e; cbn in *; auto.
 Qed.
 
 Lemma reach_all : forall c h0 sc s, reach c h0 sc s -> ctl c s /\ tasks_inv s /\ drain_inv s.
@@ -507,7 +533,7 @@ Proof.
   destruct t; step_unfold H.
   - split_step H; finish_step H; try (destruct rs); try (rewrite E0 in Hsc; cbn in Hsc);
       try discriminate Hsc; constructor; cbn in *; try assumption.
-    all: try (rewrite (ctl_sw c s HC) in Hr by (rewrite E; reflexivity); exact Hr).
+    all: try (rewrite (ctl_sw3 c s _ HC E) in Hr; exact Hr).
   - destruct (wpcs s) as [p|] eqn:Ew; [|discriminate].
     destruct p as [|m [| | |]| | | | | |]; unfold free_for, release_w in H; rewrite ?Hh in H;
       split_step H; finish_step H; constructor; cbn -[bracket_of_log] in *;
@@ -558,7 +584,7 @@ Proof.
   destruct t; step_unfold H.
   - split_step H; finish_step H; try (destruct rs); cbn -[hcheck_log] in *;
       rewrite ?hcheck_cons, HI; cbn; try reflexivity;
-      try (rewrite (ctl_sw c s HC) by (rewrite E; reflexivity); reflexivity).
+      try (rewrite (ctl_sw3 c s _ HC E); reflexivity).
     (* the two set_notification_handler cases: the mutex is free, so no invocation is in progress *)
     all: unfold free_for in *; rewrite ?Hls, ?Hlc in *; cbn in *;
       pose proof (ctl_mx c s HC) as Hmx;
@@ -603,37 +629,49 @@ Qed.
     next accesses (rows of the generated table) conflict *)
 Local Open Scope string_scope.
 Definition worker_fn (f : string) : bool :=
-  existsb (String.eqb f) ["Deployer::Run"; "Deployer::NextTask"; "Deployer::HasPendingTasks"; "Service::Notify";
-                          "Deployer::ScheduleTask"].
+  existsb (String.eqb f) ["Deployer::Run"; "Deployer::NextTask"; "Deployer::HasPendingTasks"; "Deployer::FinishWork";
+                          "Service::Notify"; "Deployer::ScheduleTask"].
 
-Definition row_ok (r : acc_row) : bool :=
+(** [flag]: the table shows the repaired hand-over.  Before the repair StartWork looks at the queue
+    without the lock (when no worker exists); after it no access to the queue is exempt, and every
+    access to running_ must hold Deployer::mutex_. *)
+Definition row_ok (flag : bool) (r : acc_row) : bool :=
   negb (is_data r) ||
   (if String.eqb (a_var r) VQUEUE then
-     has_lock DMUTEX r || (String.eqb (a_fn r) "Deployer::StartWork" && akind_eqb (a_kind r) ARead)
+     has_lock DMUTEX r || (negb flag && (String.eqb (a_fn r) "Deployer::StartWork" && akind_eqb (a_kind r) ARead))
    else if String.eqb (a_var r) VHANDLER then has_lock SMUTEX r
+   else if String.eqb (a_var r) VRUNNING then has_lock DMUTEX r
    else if String.eqb (a_var r) VSINK then String.eqb (a_fn r) "Deployer::Run"
    else negb (worker_fn (a_fn r))).
 
 (** the condition on the generated table under which race freedom is proved *)
-Definition table_ok (tbl : list acc_row) : bool := forallb row_ok tbl.
+Definition table_ok (tbl : list acc_row) : bool := forallb (row_ok (tbl_flag tbl)) tbl.
 
 Lemma rows_in : forall tbl f r, In r (rows tbl f) -> In r tbl /\ a_fn r = f.
 Proof. intros tbl f r H. unfold rows in H. apply filter_In in H. destruct H as [A B]. apply String.eqb_eq in B. auto. Qed.
 
+Lemma rows_var_in : forall tbl f v r, In r (rows_var tbl f v) -> In r tbl /\ a_fn r = f /\ a_var r = v.
+Proof.
+  intros tbl f v r H. unfold rows_var in H. apply filter_In in H. destruct H as [A B].
+  apply String.eqb_eq in B. apply rows_in in A. tauto.
+Qed.
+
 Lemma w_acc_fn : forall tbl s a, In a (w_acc tbl s) ->
-  In a tbl /\ worker_fn (a_fn a) = true /\ wpcs s <> None.
+  In a tbl /\ (worker_fn (a_fn a) = true \/ a_var a = VRUNNING) /\ wpcs s <> None.
 Proof.
   intros tbl s a H. unfold w_acc in H. destruct (wpcs s) as [p|]; [|contradiction].
   destruct p; rewrite ?in_app_iff in H; repeat (destruct H as [H|H]);
-    apply rows_in in H; destruct H as [A B]; rewrite B; repeat split; auto; discriminate.
+    first [ apply rows_in in H; destruct H as [A B]; rewrite B; repeat split; auto; discriminate
+          | apply rows_var_in in H; destruct H as (A & B & C); repeat split; auto; discriminate ].
 Qed.
 
 Lemma c_acc_fn : forall tbl s b, In b (c_acc tbl s) ->
   In b tbl /\ String.eqb (a_fn b) "Deployer::Run" = false /\
-  (a_fn b = "Deployer::StartWork" -> in_startwork (cpcs s) = true).
+  (a_fn b = "Deployer::StartWork" -> tbl_flag tbl = true \/ in_startwork (cpcs s) = true).
 Proof.
   intros tbl s b H. unfold c_acc, call_acc, disabled_rows in H.
   destruct (cpcs s); [destruct (script s) as [|[]]; [contradiction|..]; try (destruct b0)|..];
+    try (destruct (tbl_flag tbl) eqn:Ef);
     try contradiction; rewrite ?in_app_iff in H;
     repeat (destruct H as [H|H]); apply rows_in in H; destruct H as [A B]; rewrite B;
     repeat split; auto; try discriminate.
@@ -647,9 +685,9 @@ Proof.
 Qed.
 
 Lemma race_free_holds : forall tbl c h0 sc s,
-  table_ok tbl = true -> reach c h0 sc s -> race_state tbl s = false.
+  table_ok tbl = true -> tbl_flag tbl = nw c -> reach c h0 sc s -> race_state tbl s = false.
 Proof.
-  intros tbl c h0 sc s Hok Hr. pose proof (reach_ctl _ _ _ _ Hr) as HC.
+  intros tbl c h0 sc s Hok Hfl Hr. pose proof (reach_ctl _ _ _ _ Hr) as HC.
   destruct (race_state tbl s) eqn:R; [exfalso|reflexivity].
   unfold race_state in R. apply existsb_exists in R. destruct R as [a [Ha R]].
   apply existsb_exists in R. destruct R as [b [Hb R]].
@@ -660,19 +698,26 @@ Proof.
   unfold conflict in R. rewrite !andb_true_iff in R. destruct R as ((((Da & Db) & Ev) & _) & Ns).
   apply String.eqb_eq in Ev. unfold row_ok in Oa, Ob. rewrite Da in Oa. rewrite Db in Ob. cbn in Oa, Ob.
   rewrite <- Ev in Ob.
-  destruct (String.eqb (a_var a) VQUEUE).
+  destruct (String.eqb (a_var a) VQUEUE) eqn:Eq.
   - rewrite orb_true_iff in Oa, Ob. destruct Oa as [Oa|Oa].
     + destruct Ob as [Ob|Ob].
       * rewrite (share_lock_common _ _ _ Oa Ob) in Ns. discriminate.
-      * rewrite andb_true_iff in Ob. destruct Ob as [Ob _]. apply String.eqb_eq in Ob.
-        apply Hw. apply (ctl_sw c s HC). apply Hsw. exact Ob.
-    + rewrite andb_true_iff in Oa. destruct Oa as [Oa _]. apply String.eqb_eq in Oa.
-      rewrite Oa in Wa. discriminate.
+      * rewrite !andb_true_iff in Ob. destruct Ob as (Of & Ob & _). apply String.eqb_eq in Ob.
+        apply negb_true_iff in Of. destruct (Hsw Ob) as [X|X]; [congruence|].
+        apply Hw. apply (ctl_sw c s HC); [congruence|exact X].
+    + rewrite !andb_true_iff in Oa. destruct Oa as (_ & Oa & _). apply String.eqb_eq in Oa.
+      destruct Wa as [Wa|Wa].
+      * rewrite Oa in Wa. discriminate.
+      * apply String.eqb_eq in Eq. rewrite Wa in Eq. discriminate.
   - destruct (String.eqb (a_var a) VHANDLER).
     + rewrite (share_lock_common _ _ _ Oa Ob) in Ns. discriminate.
-    + destruct (String.eqb (a_var a) VSINK).
-      * rewrite Wb in Ob. discriminate.
-      * change (negb (worker_fn (a_fn a)) = true) in Oa. rewrite Wa in Oa. discriminate.
+    + destruct (String.eqb (a_var a) VRUNNING) eqn:Er.
+      * rewrite (share_lock_common _ _ _ Oa Ob) in Ns. discriminate.
+      * destruct (String.eqb (a_var a) VSINK).
+        -- rewrite Wb in Ob. discriminate.
+        -- change (negb (worker_fn (a_fn a)) = true) in Oa. destruct Wa as [Wa|Wa].
+           ++ rewrite Wa in Oa. discriminate.
+           ++ rewrite Wa in Er. discriminate.
 Qed.
 
 (** * Refutations (witnesses are the macro schedules of Sched.v, replayed on the real
@@ -688,30 +733,144 @@ Definition every_task_runs_before_idle_full (c : cfg) : Prop :=
 (** It is false of the model, whatever the lock configuration: the worker's exit window.
     The last observation is is_maintenance_mode() = False; tasks 3,4,5 were scheduled by a
     sync_user_data that returned False and have not been run. *)
-Lemma window_witness : forall c, exists s,
+Lemma window_witness : forall c, nw c = false -> exists s,
   run_macro c (init true witness_window_script) witness_window_sched = Some s /\
   cpcs s = CIdle /\ script s = [] /\ working s = false /\ ~ In EBadCall (log s) /\
   hd_error (log s) = Some (ERet RIsMaint 0) /\ In (ERet RSyncUser 0) (log s) /\
   In 3 (scheds (log s)) /\ ~ In 3 (execs (log s)) /\ map fst (queue s) = [3; 4; 5].
 Proof.
-  intros [a1 a2 a3 [] [] [] []]; eexists; (split; [vm_compute; reflexivity|]); cbn;
+  intros [a1 a2 a3 [] [] [] [] []] Hn; try discriminate Hn; eexists; (split; [vm_compute; reflexivity|]); cbn;
     repeat split; auto; try tauto; intuition (try discriminate; try lia).
 Qed.
 
-Lemma every_task_runs_before_idle_refuted : forall c, ~ every_task_runs_before_idle_full c.
+Lemma every_task_runs_before_idle_refuted : forall c, nw c = false -> ~ every_task_runs_before_idle_full c.
 Proof.
-  intros c F. destruct (window_witness c) as (s & Hrun & Hc & _ & Hw & Hb & _ & _ & Hs & He & _).
+  intros c Hn F. destruct (window_witness c Hn) as (s & Hrun & Hc & _ & Hw & Hb & _ & _ & Hs & He & _).
   apply He. eapply F; eauto. eapply run_macro_reach; [apply reach_init|exact Hrun].
 Qed.
 
 (** the same window through start_maintenance: the API call returns True *)
-Lemma window_witness_start_maintenance : forall c, exists s,
+Lemma window_witness_start_maintenance : forall c, nw c = false -> exists s,
   run_macro c (init true witness_window_sm_script) witness_window_sched = Some s /\
   hd_error (log s) = Some (ERet RIsMaint 0) /\
   hd_error (tl (tl (tl (log s)))) = Some (ERet RStartMaint 1) /\
   In 3 (scheds (log s)) /\ ~ In 3 (execs (log s)).
 Proof.
-  intros [a1 a2 a3 [] [] [] []]; eexists; (split; [vm_compute; reflexivity|]); cbn;
+  intros [a1 a2 a3 [] [] [] [] []] Hn; try discriminate Hn; eexists; (split; [vm_compute; reflexivity|]); cbn;
+    repeat split; auto; intuition (try discriminate; try lia).
+Qed.
+
+(** * The repaired hand-over (HFlag): no task is left behind *)
+Definition c_quiet (p : cpc) : bool := match p with CSched _ _ | CSW0 _ => false | _ => true end.
+
+Record fw_inv (s : state) : Prop := {
+  fw_thr : wpcs s = Some WThrow -> In EBadCall (log s);
+  fw_main : In EBadCall (log s) \/ (running s = false -> c_quiet (cpcs s) = true -> queue s = [])
+}.
+
+Lemma fw_init : forall h0 sc, fw_inv (init h0 sc).
+Proof. intros. constructor; cbn; [discriminate|]. right. reflexivity. Qed.
+
+Lemma fw_step : forall c s t s', nw c = true -> ctl c s -> fw_inv s -> step c s t = Some s' -> fw_inv s'.
+Proof.
+  intros c s t s' Hn HC [Hthr Hmain] H.
+  pose proof (ctl_run c s HC) as Hrun. pose proof (ctl_swk c s HC) as Hsw. unfold sw_ok in Hsw. rewrite Hn in Hrun. rewrite ?Hn in Hsw. cbn in Hrun.
+  destruct t; step_unfold H; rewrite ?Hn in H.
+  - split_step H; finish_step H; try (destruct rs); constructor; cbn -[In] in *;
+      try assumption; try discriminate;
+      try (intros X; repeat right; exact (Hthr X));
+      try solve [destruct Hmain as [L|R]; [left; repeat right; exact L|right; exact R]];
+      try solve [destruct Hmain as [L|R]; [left; repeat right; exact L|right; intros; discriminate]].
+    all: rewrite ?E in *; cbn -[In] in *; rewrite ?orb_true_r in Hrun;
+      try solve [destruct Hmain as [L|R]; [left; repeat right; exact L|right; intros Hr Hq;
+                 first [exact (R Hr Hq) | apply R; auto; fail | assumption | congruence]]].
+    all: try (destruct Hsw as [X _]; discriminate X).
+  - destruct (wpcs s) as [p|] eqn:Ew; [|discriminate].
+    destruct p as [|m [| | |]| | | | | |]; unfold free_for, release_w in H; rewrite ?Hn in H;
+      split_step H; finish_step H; constructor; cbn -[In] in *;
+      try assumption; try discriminate; try (intros; discriminate);
+      try (intros X; repeat right; exact (Hthr X));
+      try (intros _; left; reflexivity);
+      try solve [destruct Hmain as [L|R]; [left; repeat right; exact L|right; intros Hr Hq;
+                 first [exact (R Hr Hq) | assumption | congruence]]].
+    left. apply Hthr. reflexivity.
+Qed.
+
+(** in no state reached by the repaired hand-over is a task left in the queue while nobody holds the
+    worker role and the client is not in the middle of scheduling or of StartWork's test *)
+Lemma flag_no_task_left : forall c h0 sc s, nw c = true -> reach c h0 sc s ->
+  ~ In EBadCall (log s) -> running s = false -> c_quiet (cpcs s) = true -> queue s = [].
+Proof.
+  intros c h0 sc s Hn Hr Hb.
+  assert (X : ctl c s /\ fw_inv s).
+  { eapply reach_invariant with (P := fun s => ctl c s /\ fw_inv s); eauto.
+    - split; [apply ctl_init|apply fw_init].
+    - intros s0 t s1 [A B] Hs. split; [eapply ctl_step|eapply fw_step]; eauto. }
+  destruct X as [_ [_ [L|R]]]; [contradiction|exact R].
+Qed.
+
+(** [every_task_runs_before_idle]: the full reading holds of the repaired hand-over.  At a call
+    boundary of the client, with IsWorking() false (is_maintenance_mode() returns False, join
+    returns), every task ever scheduled - at any time, by the client or from inside a handler
+    invocation - has been executed. *)
+Lemma every_task_runs_before_idle_holds : forall c, nw c = true -> every_task_runs_before_idle_full c.
+Proof.
+  intros c Hn h0 sc s t Hr Hc Hw Hb Ht.
+  pose proof (reach_ctl _ _ _ _ Hr) as HC.
+  pose proof (working_wk s (ctl_wk c s HC) Hw) as Hnone.
+  assert (Hrun : running s = false).
+  { rewrite (ctl_run c s HC), Hnone, Hc. cbn. apply andb_false_r. }
+  assert (Hq : queue s = []).
+  { eapply flag_no_task_left; eauto. rewrite Hc. reflexivity. }
+  destruct (reach_tasks _ _ _ _ Hr) as [_ _ Hsc]. apply Hsc in Ht. unfold all_tasks in Ht.
+  rewrite Hnone, Hq in Ht. cbn in Ht. rewrite app_nil_r in Ht. exact Ht.
+Qed.
+
+(** the same at the moment the worker gives up its role: from the worker's successful exit test on
+    (running_ cleared; its future need not be ready yet), at a call boundary of the client, every
+    task ever scheduled has been executed *)
+Lemma every_task_runs_when_worker_quits : forall c h0 sc s t, nw c = true -> reach c h0 sc s ->
+  cpcs s = CIdle -> running s = false -> ~ In EBadCall (log s) -> In t (scheds (log s)) -> In t (execs (log s)).
+Proof.
+  intros c h0 sc s t Hn Hr Hc Hrun Hb Ht.
+  pose proof (reach_ctl _ _ _ _ Hr) as HC.
+  assert (Hq : queue s = []) by (eapply flag_no_task_left; eauto; rewrite Hc; reflexivity).
+  assert (Hbody : body_task (wpcs s) = []).
+  { pose proof (ctl_run c s HC) as X. rewrite Hrun, Hn, Hc in X. cbn in X. rewrite orb_false_r in X.
+    destruct (wpcs s) as [[]|]; cbn in *; try discriminate; reflexivity. }
+  destruct (reach_tasks _ _ _ _ Hr) as [_ _ Hsc]. apply Hsc in Ht. unfold all_tasks in Ht.
+  rewrite Hbody, Hq in Ht. cbn in Ht. rewrite app_nil_r in Ht. exact Ht.
+Qed.
+
+(** a start call that returns False because a worker is running leaves its tasks to that worker:
+    while running_ is set a worker that has not passed its exit test exists (or the client is about
+    to start one) *)
+Lemma flag_running_worker : forall c h0 sc s, nw c = true -> reach c h0 sc s ->
+  running s = true -> w_active (wpcs s) = true \/ c_decided (cpcs s) = true.
+Proof.
+  intros c h0 sc s Hn Hr Hrun. pose proof (ctl_run c s (reach_ctl _ _ _ _ Hr)) as X.
+  rewrite Hrun, Hn in X. cbn in X. symmetry in X. apply orb_true_iff in X. exact X.
+Qed.
+
+(** the old witness schedule on the repaired hand-over, run to the end of the script *)
+Lemma window_closed_witness : forall c, nw c = true -> exists s,
+  run_macro c (init true witness_window_script) witness_closed_sched = Some s /\
+  cpcs s = CIdle /\ script s = [] /\ working s = false /\ running s = false /\ ~ In EBadCall (log s) /\
+  hd_error (log s) = Some (ERet RIsMaint 0) /\ ~ In (ERet RSyncUser 0) (log s) /\
+  scheds (log s) = [5; 4; 3; 2; 1; 0] /\ execs (log s) = [5; 4; 3; 2; 1; 0] /\ queue s = [].
+Proof.
+  intros [a1 a2 a3 [] [] [] [] []] Hn; try discriminate Hn; eexists; (split; [vm_compute; reflexivity|]); cbn;
+    repeat split; auto; intuition (try discriminate; try lia).
+Qed.
+
+(** tasks scheduled before the worker's exit test: the call returns False, the same worker runs them *)
+Lemma window_seen_witness : forall c, nw c = true -> exists s,
+  run_macro c (init true witness_window_script) witness_seen_sched = Some s /\
+  cpcs s = CIdle /\ script s = [] /\ working s = false /\ ~ In EBadCall (log s) /\
+  hd_error (log s) = Some (ERet RIsMaint 0) /\ In (ERet RSyncUser 0) (log s) /\
+  execs (log s) = [5; 4; 3; 2; 1; 0] /\ List.length (filter (fun e => match e with ESpawn => true | _ => false end) (log s)) = 1.
+Proof.
+  intros [a1 a2 a3 [] [] [] [] []] Hn; try discriminate Hn; eexists; (split; [vm_compute; reflexivity|]); cbn;
     repeat split; auto; intuition (try discriminate; try lia).
 Qed.
 
@@ -810,8 +969,8 @@ Example excl_nonvacuous : forall c, exists s,
 Proof.
   intros c. destruct (run_macro c (init true ex_script) (rep 6 Client)) as [s|] eqn:E.
   - exists s. split; [eapply run_macro_reach; [apply reach_init|exact E]|].
-    destruct c as [a1 a2 a3 [] [] [] []]; vm_compute in E; inversion E; subst; cbn; auto.
-  - destruct c as [a1 a2 a3 [] [] [] []]; vm_compute in E; discriminate.
+    destruct c as [a1 a2 a3 [] [] [] [] []]; vm_compute in E; inversion E; subst; cbn; auto.
+  - destruct c as [a1 a2 a3 [] [] [] [] []]; vm_compute in E; discriminate.
 Qed.
 
 (** ... and one for [reopens_accept], [task_not_lost_holds] and [notif_bracketed_holds]:
@@ -826,9 +985,9 @@ Proof.
   intros c Hc.
   destruct (run_macro c (init true ex_script) (rep 7 Client ++ rep 16 Worker ++ [Client; Client])) as [s|] eqn:E.
   - exists s. split; [eapply run_macro_reach; [apply reach_init|exact E]|].
-    destruct c as [a1 a2 a3 [] [] [] []]; cbn in Hc; try discriminate Hc; vm_compute in E; inversion E; subst; cbn;
+    destruct c as [a1 a2 a3 [] [] [] [] []]; cbn in Hc; try discriminate Hc; vm_compute in E; inversion E; subst; cbn;
       repeat split; auto; intros X; repeat (destruct X as [X|X]; [discriminate X|]); exact X.
-  - destruct c as [a1 a2 a3 [] [] [] []]; cbn in Hc; try discriminate Hc; vm_compute in E; discriminate.
+  - destruct c as [a1 a2 a3 [] [] [] [] []]; cbn in Hc; try discriminate Hc; vm_compute in E; discriminate.
 Qed.
 
 (** non-vacuity of [setter_blocked_holds] / [handler_excl_holds]: the worker is inside the
@@ -842,15 +1001,15 @@ Example setter_blocked_nonvacuous : forall c, lk_ntest c = true -> exists s,
 Proof.
   intros c Hc. destruct (run_macro c (init true hx_script) hx_sched) as [s|] eqn:E.
   - exists s. split; [eapply run_macro_reach; [apply reach_init|exact E]|].
-    destruct c as [a1 a2 a3 [] [] [] []]; cbn in Hc; try discriminate Hc; vm_compute in E; inversion E; subst; cbn; auto.
-  - destruct c as [a1 a2 a3 [] [] [] []]; cbn in Hc; try discriminate Hc; vm_compute in E; discriminate.
+    destruct c as [a1 a2 a3 [] [] [] [] []]; cbn in Hc; try discriminate Hc; vm_compute in E; inversion E; subst; cbn; auto.
+  - destruct c as [a1 a2 a3 [] [] [] [] []]; cbn in Hc; try discriminate Hc; vm_compute in E; discriminate.
 Qed.
 
 (** without the lock around the call the clause is false of the model: the setter returns
     while the invocation of the handler it replaced is still in progress *)
 Definition cfg_call_unlocked : cfg :=
   {| lk_sched := true; lk_next := true; lk_hasp := true; lk_set := true; lk_clear := true;
-     lk_ntest := false; lk_ncall := false |}.
+     lk_ntest := false; lk_ncall := false; ho := HFuture |}.
 Lemma handler_excl_unlocked_refuted : exists s,
   reach cfg_call_unlocked true hx_script s /\ snd (hcheck_log (log s)) = false.
 Proof.
